@@ -44,7 +44,14 @@ class Problem:
         for _ in range(ncon):
             dim = ints(1)[0]; mu = nums(1)[0]; fr = nums(5); adr = ints(1)[0]
             self.con.append((dim, mu, fr, adr))
-        self.L = np.linalg.cholesky(self.M)
+        self.bad = None
+        if not all(np.all(np.isfinite(x)) for x in (self.M, self.J, self.D, self.R, self.fl, self.aref, self.a0, self.qfrc_smooth, self.warm)):
+            self.bad = "non-finite problem data (state diverged before the sample)"
+        else:
+            try:
+                self.L = np.linalg.cholesky(self.M)
+            except np.linalg.LinAlgError:
+                self.bad = "inertia matrix not positive definite"
         self.sols = []
         # row blocks
         self.blocks = []
@@ -207,6 +214,8 @@ def parse_solution(t, nv):
 
 
 def analyse(P, rng):
+    if P.bad:
+        return {"seed": P.seed, "step": P.step, "cone": P.cone, "nv": P.nv, "nefc": P.nefc, "bad": P.bad}
     out = {"seed": P.seed, "step": P.step, "cone": P.cone, "nv": P.nv, "nefc": P.nefc, "ne": P.ne, "nf": P.nf, "ncon": len(P.con),
            "nisland": P.nisland, "kinds": sorted(set(b[0] + (str(b[2]) if b[0] == "ell" else "") for b in P.blocks)),
            "types": sorted(set(P.type))}
@@ -230,12 +239,21 @@ def analyse(P, rng):
                   "type": P.type, "id": P.id, "con": [{"dim": c[0], "mu": float(c[1]).hex(), "fr": [float(x).hex() for x in c[2]], "adr": c[3]} for c in P.con]}
     for s in P.sols:
         a = s["qacc"]
-        _, flaw = P.grad(a)
         f = s["force"]
+        base = {"cfg": s["cfg"], "solver": s["solver"], "island": s["island"], "sparse": s["sparse"], "cold": s["cold"], "maxiter": s["maxiter"],
+                "nefc": s["nefc"], "chk": s["chk"], "nisland": s["nisland"], "niter": s["niter"]}
+        if s["nefc"] != P.nefc or len(f) != P.nefc or len(a) != P.nv:
+            sols.append(dict(base, bad="different number of constraint rows than the dumped problem", finite=True))
+            continue
+        if not (np.all(np.isfinite(a)) and np.all(np.isfinite(f))):
+            sols.append(dict(base, bad="non-finite qacc / efc_force", finite=False))
+            continue
+        _, flaw = P.grad(a)
         # dual cost 1/2 f'(A+R)f + f'b and admissibility of the reported forces
         dual = float(0.5 * f @ (A @ f) + 0.5 * f @ (P.R * f) + f @ b0) if P.nefc else 0.0
         res = P.J @ a - P.aref + P.R * f
-        apex, inadm = 0, 0
+        apex, inadm, qcqpdet = 0, 0, 0
+        AR = A + np.diag(P.R) if P.nefc else A
         fscale = 1 + (float(np.max(np.abs(f))) if P.nefc else 0.0)
         for kind, i, dim, c in P.blocks:
             if kind == "fric":
@@ -246,9 +264,13 @@ def analyse(P, rng):
                 fr = c[2][:dim - 1]
                 tn = math.sqrt(float(np.sum((f[i + 1:i + dim] / fr) ** 2)))
                 inadm += not (f[i] >= -1e-9 * fscale and tn <= f[i] + 1e-9 * fscale)
+                rt = math.sqrt(float(np.sum((fr * res[i + 1:i + dim]) ** 2)))
                 if abs(f[i]) <= 1e-15:
-                    rt = math.sqrt(float(np.sum((fr * res[i + 1:i + dim]) ** 2)))
                     apex += bool(res[i] < rt * (1 - 1e-9) - 1e-9 * (1 + abs(res[i])))
+                elif dim in (3, 4) and not np.any(f[i + 1:i + dim]) and rt > 1e-9 * (1 + abs(res[i])):
+                    # mju_QCQP2 / mju_QCQP3 return zero friction when det(scaled block) < 1e-10 although the block is SPD
+                    As = AR[i + 1:i + dim, i + 1:i + dim] * np.outer(fr, fr)
+                    qcqpdet += bool(np.linalg.det(As) < 1e-10 and np.min(np.linalg.eigvalsh(As)) > 0)
         pair = None
         if s["island"]:
             for s2 in P.sols:
@@ -267,7 +289,7 @@ def analyse(P, rng):
                      "sum_improvement": sum(x[0] for x in s["stats"]) / scale, "min_improvement": min([x[0] for x in s["stats"]] + [0.0]) / scale,
                      "last_gradient": (s["stats"][-1][1] / scale) if s["stats"] else None, "nstat": len(s["stats"]),
                      "finite": bool(np.all(np.isfinite(a)) and np.all(np.isfinite(s["force"]))),
-                     "dual": dual, "apex_viol": apex, "inadmissible": int(inadm), "pair_err": pair,
+                     "dual": dual, "apex_viol": apex, "qcqp_det_viol": qcqpdet, "inadmissible": int(inadm), "pair_err": pair,
                      "jar": [float(x).hex() for x in (P.J @ a - P.aref)] if s["cfg"] in (0, 4) else None,
                      "force_hex": [float(x).hex() for x in f] if s["cfg"] in (0, 4) else None})
     out["sols"] = sols
@@ -286,6 +308,8 @@ def main():
             if cur is not None:
                 res.append(analyse(cur, rng))
             cur = Problem(t)
+            # the row blocks need valid contact ids
+
         elif t[0] == "S" and cur is not None:
             cur.sols.append(parse_solution(t, cur.nv))
     if cur is not None:
